@@ -16,6 +16,7 @@ import (
 	"fmt"
 	"math/rand"
 	"net"
+	"sort"
 	"sync"
 	"sync/atomic"
 	"testing"
@@ -33,6 +34,25 @@ type c02Key struct {
 	P  int // phantom index
 	S  int // secret index
 	TT pb.TransportType
+}
+
+// sortedEntries returns the model's entries in key order: map iteration order must not decide which cases a seed produces.
+func (w *c02World) sortedEntries() []*c02Entry {
+	out := make([]*c02Entry, 0, len(w.model))
+	for _, e := range w.model {
+		out = append(out, e)
+	}
+	sort.Slice(out, func(i, j int) bool {
+		a, b := out[i].key, out[j].key
+		if a.P != b.P {
+			return a.P < b.P
+		}
+		if a.S != b.S {
+			return a.S < b.S
+		}
+		return a.TT < b.TT
+	})
+	return out
 }
 
 type c02Entry struct {
@@ -91,6 +111,30 @@ func (w *c02World) spec(k c02Key, id prefix.PrefixID, covert string) vRegSpec {
 
 var c02TTs = []pb.TransportType{pb.TransportType_Min, pb.TransportType_Obfs4, pb.TransportType_Prefix}
 
+type c02Op struct {
+	op string // admit, use, age
+	k  c02Key
+	d  time.Duration
+}
+
+// c02Scripts: per transport, two registrations with different secrets on phantom 0 (and a bystander on phantom 1);
+// "used" keeps one alive while the other expires, "later" registers one after the other has aged.
+var c02Scripts = func() (out [][]c02Op) {
+	for _, ta := range c02TTs {
+		for _, tb := range c02TTs {
+			a, b, c := c02Key{0, 0, ta}, c02Key{0, 1, tb}, c02Key{1, 2, ta}
+			// a is used and stays, b expires unused
+			out = append(out, []c02Op{{op: "admit", k: a}, {op: "admit", k: b}, {op: "admit", k: c}, {op: "use", k: a}, {op: "age", d: 11 * time.Minute}})
+			// b is registered later and stays, a expires
+			out = append(out, []c02Op{{op: "admit", k: a}, {op: "age", d: 7 * time.Minute}, {op: "admit", k: b}, {op: "admit", k: c}, {op: "age", d: 4 * time.Minute}})
+		}
+	}
+	// a used registration outlives two generations of neighbours and finally expires itself
+	a, b, c := c02Key{0, 0, pb.TransportType_Min}, c02Key{0, 1, pb.TransportType_Prefix}, c02Key{0, 2, pb.TransportType_Obfs4}
+	out = append(out, []c02Op{{op: "admit", k: a}, {op: "use", k: a}, {op: "admit", k: b}, {op: "age", d: 3 * time.Hour}, {op: "admit", k: c}, {op: "age", d: 4 * time.Hour}})
+	return out
+}()
+
 func c02Build(t *testing.T, rng *rand.Rand, idx int) *c02World {
 	w := &c02World{s: vNewStation(t, fmt.Sprint("c02-", idx)), model: map[c02Key]*c02Entry{}}
 	for i := 0; i < 3; i++ {
@@ -98,6 +142,56 @@ func c02Build(t *testing.T, rng *rand.Rand, idx int) *c02World {
 	}
 	for i := 0; i < 4; i++ {
 		w.secrets = append(w.secrets, vSecret(rng))
+	}
+	admit := func(k c02Key, id prefix.PrefixID, trackOnly bool) {
+		e := &c02Entry{key: k, prefixID: id, covert: c02NewCovert()}
+		e.spec = w.spec(k, id, e.covert.ln.Addr().String())
+		var err error
+		if trackOnly {
+			e.reg, err = w.s.vTrackOnly(e.spec)
+			w.ops = append(w.ops, fmt.Sprintf("track-only%v", k))
+		} else {
+			e.reg, err = w.s.vAdmit(e.spec)
+			e.valid = true
+			w.ops = append(w.ops, fmt.Sprintf("admit%v", k))
+		}
+		if err != nil {
+			t.Fatalf("cannot build registration %v: %v", e.spec, err)
+		}
+		w.model[k] = e
+	}
+	use := func(e *c02Entry) {
+		w.s.rm.MarkActive(e.reg)
+		e.used = true
+		w.ops = append(w.ops, fmt.Sprintf("use%v", e.key))
+	}
+	ageSweep := func(d time.Duration) {
+		w.s.rm.VerifBackdate(d)
+		w.s.rm.RemoveOldRegistrations()
+		w.ops = append(w.ops, fmt.Sprintf("age(%v)+sweep", d))
+		for _, e := range w.sortedEntries() {
+			k := e.key
+			e.age += d
+			if (!e.used && e.age > 10*time.Minute) || e.age > 6*time.Hour {
+				delete(w.model, k)
+				w.gone = append(w.gone, e)
+			}
+		}
+	}
+	if idx < len(c02Scripts) {
+		// fixed worlds first: staggered expiry on one phantom (one registration is forgotten while a neighbour on the
+		// same phantom stays) in every combination the random worlds only reach by luck
+		for _, op := range c02Scripts[idx] {
+			switch op.op {
+			case "admit":
+				admit(op.k, vAllPrefixIDs[(idx+op.k.S)%len(vAllPrefixIDs)], false)
+			case "use":
+				use(w.model[op.k])
+			case "age":
+				ageSweep(op.d)
+			}
+		}
+		return w
 	}
 	nOps := 8 + rng.Intn(8)
 	willSweep := idx%3 != 0 // a third of the worlds never sweep and may share one secret between transports on one phantom
@@ -120,27 +214,11 @@ func c02Build(t *testing.T, rng *rand.Rand, idx int) *c02World {
 				}
 			}
 			id := vAllPrefixIDs[rng.Intn(len(vAllPrefixIDs))]
-			e := &c02Entry{key: k, prefixID: id, covert: c02NewCovert()}
-			e.spec = w.spec(k, id, e.covert.ln.Addr().String())
-			var err error
-			if rng.Intn(4) == 0 {
-				e.reg, err = w.s.vTrackOnly(e.spec)
-				w.ops = append(w.ops, fmt.Sprintf("track-only%v", k))
-			} else {
-				e.reg, err = w.s.vAdmit(e.spec)
-				e.valid = true
-				w.ops = append(w.ops, fmt.Sprintf("admit%v", k))
-			}
-			if err != nil {
-				t.Fatalf("cannot build registration %v: %v", e.spec, err)
-			}
-			w.model[k] = e
+			admit(k, id, rng.Intn(4) == 0)
 		case r < 6: // a connection arrives: mark used
-			for _, e := range w.model {
+			for _, e := range w.sortedEntries() {
 				if e.valid && rng.Intn(3) == 0 {
-					w.s.rm.MarkActive(e.reg)
-					e.used = true
-					w.ops = append(w.ops, fmt.Sprintf("use%v", e.key))
+					use(e)
 					break
 				}
 			}
@@ -148,17 +226,7 @@ func c02Build(t *testing.T, rng *rand.Rand, idx int) *c02World {
 			if !willSweep {
 				continue
 			}
-			d := []time.Duration{4 * time.Minute, 7 * time.Minute, 3 * time.Hour, 4 * time.Hour}[rng.Intn(4)]
-			w.s.rm.VerifBackdate(d)
-			w.s.rm.RemoveOldRegistrations()
-			w.ops = append(w.ops, fmt.Sprintf("age(%v)+sweep", d))
-			for k, e := range w.model {
-				e.age += d
-				if (!e.used && e.age > 10*time.Minute) || e.age > 6*time.Hour {
-					delete(w.model, k)
-					w.gone = append(w.gone, e)
-				}
-			}
+			ageSweep([]time.Duration{4 * time.Minute, 7 * time.Minute, 3 * time.Hour, 4 * time.Hour}[rng.Intn(4)])
 		}
 	}
 	return w
@@ -187,10 +255,7 @@ func (w *c02World) expectAt(p int, src *c02Entry, flightPrefix prefix.PrefixID) 
 
 func (w *c02World) flights(t *testing.T, rng *rand.Rand, bitBudget int) []c02Flight {
 	var out []c02Flight
-	all := []*c02Entry{}
-	for _, e := range w.model {
-		all = append(all, e)
-	}
+	all := w.sortedEntries()
 	all = append(all, w.gone...)
 	for _, e := range all {
 		fl, err := w.s.vFlight(e.spec)
@@ -329,7 +394,7 @@ func TestVerifC02(t *testing.T) {
 	rec := kit.NewRec("C02", "flights")
 	defer rec.Close()
 	rng := kit.Rand("c02")
-	nWorlds := kit.Tier(12, 150)
+	nWorlds := len(c02Scripts) + kit.Tier(12, 150)
 	bitBudget := kit.Tier(520, 100000)
 	type hcase struct {
 		w *c02World
@@ -414,10 +479,7 @@ func TestVerifC02(t *testing.T) {
 		seenWorld[w] = true
 		w.s.rm.VerifBackdate(7 * time.Hour)
 		w.s.rm.RemoveOldRegistrations()
-		entries := []*c02Entry{}
-		for _, e := range w.model {
-			entries = append(entries, e)
-		}
+		entries := w.sortedEntries()
 		for _, e := range entries {
 			fl, err := w.s.vFlight(e.spec)
 			if err != nil {
@@ -469,10 +531,7 @@ func c02Handler(rec *kit.Rec, w *c02World, f c02Flight) {
 func c02HandlerOnce(rec *kit.Rec, w *c02World, f c02Flight, report bool) bool {
 	phantom := w.phantoms[f.P]
 	before := map[*c02Entry]int64{}
-	entries := []*c02Entry{}
-	for _, e := range w.model {
-		entries = append(entries, e)
-	}
+	entries := w.sortedEntries()
 	entries = append(entries, w.gone...)
 	for _, e := range entries {
 		before[e] = e.covert.accepts.Load()
